@@ -14,7 +14,13 @@ fn do_case(case: Vec<i128>) {
         dispatch_len!(
             n,
             [U0, U1, U2, U3, U4, U5, U6, U7, U8, U16, U33],
-            |N| if elem == 0 { forms::run::<Tr, N>(&case) } else { forms::run::<u32, N>(&case) },
+            |N| match elem {
+                0 => forms::run::<Tr, Tr, Tr, N>(&case),
+                1 => forms::run::<u32, u32, u32, N>(&case),
+                2 => forms::run::<Tr, u32, Tr, N>(&case),
+                3 => forms::run::<u32, Tr, Tr, N>(&case),
+                _ => forms::run::<forms::Cn, forms::Cn, forms::Cn, N>(&case),
+            },
             panic!("length {} not monomorphised", n)
         )
     });
@@ -39,25 +45,40 @@ fn main() {
         do_case(c);
         return;
     }
+    // --mode 1: the caller's closure drops its arguments and the DESTRUCTOR of an argument
+    // panics (instead of the closure panicking by itself)
+    let mode: i128 = if a.extra.iter().any(|x| x == "1") { 1 } else { 0 };
     let ns: Vec<usize> = if a.tier == "thorough" { vec![0, 1, 2, 3, 4, 5, 6, 7, 8, 16, 33] } else { vec![0, 1, 2, 3, 4, 5] };
     for &n in &ns {
         // (op, number of forms)
         for (op, nforms) in [(0i128, 4i128), (1, 10), (2, 4), (3, 4), (4, 1), (5, 1)] {
+            if mode == 1 && op >= 3 {
+                continue;
+            }
             for form in 0..nforms {
                 for pan in -1..(n as i128) {
                     dist(&format!("op{}", op));
-                    do_case(vec![op, form, 0, n as i128, pan, 0, 0]);
+                    do_case(vec![op, form, 0, n as i128, pan, 0, 0, mode]);
+                    // zip of a drop-tracked with a plain array and vice versa
+                    if op == 1 {
+                        dist("zip_mixed");
+                        do_case(vec![op, form, 2, n as i128, pan, 0, 0, mode]);
+                        do_case(vec![op, form, 3, n as i128, pan, 0, 0, mode]);
+                    }
                 }
             }
         }
         // by-value iterator: clone / fold / rfold from every (front, back) position
         for op in [6i128, 7, 8] {
+            if mode == 1 && op == 6 {
+                continue;
+            }
             for f in 0..=n {
                 for b in 0..=(n - f) {
                     let len = (n - f - b) as i128;
                     for pan in -1..len {
                         dist(&format!("op{}", op));
-                        do_case(vec![op, 0, 0, n as i128, pan, f as i128, b as i128]);
+                        do_case(vec![op, 0, 0, n as i128, pan, f as i128, b as i128, mode]);
                     }
                 }
             }
